@@ -10,39 +10,39 @@ From GB Require Import Model.Header Model.Events Model.Rbr Model.Streamer Spec.E
 From GB Require Import Proofs.ImageProofs Proofs.RowsProofs.
 Open Scope Z_scope.
 
-Theorem C13_varchar : forall ffmt tz jsonp max vs uns s,
+Theorem C13_varchar : forall ffmt tz efmt jsonp max vs uns s,
   wf_type (TVarchar max vs) = true -> wf_value (TVarchar max vs) uns (VBytes s) = true ->
-  cell_ok ffmt tz jsonp (TVarchar max vs) uns (VBytes s).
+  cell_ok ffmt tz efmt jsonp (TVarchar max vs) uns (VBytes s).
 Proof. exact varchar_ok. Qed.
 Print Assumptions C13_varchar.
 
-Theorem C13_char : forall ffmt tz jsonp max uns s,
+Theorem C13_char : forall ffmt tz efmt jsonp max uns s,
   wf_type (TChar max) = true -> wf_value (TChar max) uns (VBytes s) = true ->
-  cell_ok ffmt tz jsonp (TChar max) uns (VBytes s).
+  cell_ok ffmt tz efmt jsonp (TChar max) uns (VBytes s).
 Proof. exact char_ok. Qed.
 Print Assumptions C13_char.
 
 (* MySQL's packing of (real type, length) for CHAR/BINARY decodes back to the declared length, never to ENUM/SET *)
 Theorem C13_char_metadata : forall max, 0 <= max <= 1023 ->
   string_max (char_meta max) = max /\ shr (char_meta max) 8 <> 247 /\ shr (char_meta max) 8 <> 248.
-Proof. exact (char_meta_ok (fun _ _ => []) (fun _ => 0) (fun _ => Err EJson)). Qed.
+Proof. exact (char_meta_ok (fun _ _ => []) (fun _ => 0) (fun _ => []) (fun _ => Err EJson)). Qed.
 Print Assumptions C13_char_metadata.
 
-Theorem C13_blob : forall ffmt tz jsonp lb code uns s,
+Theorem C13_blob : forall ffmt tz efmt jsonp lb code uns s,
   wf_type (TBlob lb code) = true -> wf_value (TBlob lb code) uns (VBytes s) = true ->
-  cell_ok ffmt tz jsonp (TBlob lb code) uns (VBytes s).
+  cell_ok ffmt tz efmt jsonp (TBlob lb code) uns (VBytes s).
 Proof. exact blob_ok. Qed.
 Print Assumptions C13_blob.
 
-Theorem C13_geometry : forall ffmt tz jsonp lb uns s,
+Theorem C13_geometry : forall ffmt tz efmt jsonp lb uns s,
   wf_type (TGeometry lb) = true -> wf_value (TGeometry lb) uns (VBytes s) = true ->
-  cell_ok ffmt tz jsonp (TGeometry lb) uns (VBytes s).
+  cell_ok ffmt tz efmt jsonp (TGeometry lb) uns (VBytes s).
 Proof. exact geometry_ok. Qed.
 Print Assumptions C13_geometry.
 
 (* the empty value is delivered as present-but-empty data, never as "no data" *)
 Example C13_empty_is_not_null :
-  text (fun _ _ => []) (fun _ => 0) (TVarchar 300 false) false (VBytes []) = [] /\
+  text (fun _ _ => []) (fun _ => 0) (fun _ => []) (TVarchar 300 false) false (VBytes []) = [] /\
   cell_bytes (fun _ _ => []) (fun _ => 0) (fun _ => Err EJson) [0; 0] 0 15 300 false = Ok (Some [], 2) /\
   wf_type (TChar 1023) = true /\ wf_value (TChar 1023) false (VBytes [0; 39; 255]) = true.
 Proof. repeat split; vm_compute; reflexivity. Qed.
@@ -105,7 +105,7 @@ Example C13_three_way_with_padding :
   p_delivered (p_cfg 0 255) = Ok (Some p_expected) /\
   p_delivered (p_cfg 172 83) = Ok (Some p_expected) /\
   (* which is what the specification says each cell must be *)
-  map (fun img => map (fun col => (c_empty col, c_data col)) (expect_columns p_ffmt p_tz p_specs img)) [p_row1; p_row2] = p_expected.
+  map (fun img => map (fun col => (c_empty col, c_data col)) (expect_columns p_ffmt p_tz (fun _ => []) p_specs img)) [p_row1; p_row2] = p_expected.
 Proof.
   repeat match goal with |- _ /\ _ => split end;
     try (vm_compute; reflexivity); try (vm_compute; discriminate).
@@ -126,3 +126,16 @@ Theorem C13_tie_cellLength : forall d pos typ meta,
 Proof. exact cellLength_equiv. Qed.
 Print Assumptions C13_tie_cellLength.
 
+(* ---------------------------------------------------------------------------------------------------------------
+   Source pins.  The model functions used above are a hand-written reading of these Go functions (they have closures,
+   channels, interfaces or maps, which the translator gotrans does not accept).  gosync regenerates their normalised
+   text (logging calls and comments removed) into gen/Source.v on every run; it must equal the committed snapshot
+   Spec/SourceSnapshot.v the models were written and validated against.  When one of them is edited the Example
+   naming it fails, the check runs the thorough harness in search of a failing input, and reports the property as no
+   longer shown to hold (with the input, or no-failing-input-found). *)
+From GB Require Proofs.SourcePins Spec.SourceSnapshot.
+From GBGen Require Source.
+Example C13_pin_getValuesFromRow : Source.src_getValuesFromRow = SourceSnapshot.src_getValuesFromRow.
+Proof. exact SourcePins.pin_getValuesFromRow. Qed.
+Example C13_pin_getIdentifiesFromRow : Source.src_getIdentifiesFromRow = SourceSnapshot.src_getIdentifiesFromRow.
+Proof. exact SourcePins.pin_getIdentifiesFromRow. Qed.
